@@ -12,7 +12,7 @@ import random
 
 from vmon import env  # noqa: F401
 from vmon.suitemon import suite_case
-from vmon.simkit import Mon, Top, spell_features
+from vmon.simkit import Mon, Top, spell_features, new_map
 
 from amaranth import Module, Shape, unsigned, signed, Elaboratable
 from amaranth.hdl import Fragment
@@ -134,7 +134,7 @@ def build_component(kind, rng, P):
             sfe = frozenset(f for f in FEATS if rng.random() < 0.6 and (f in feats or f in ("lock", "cti", "bte")))
             sub = wishbone.Interface(addr_width=saw, data_width=dw, granularity=gran, features=spell_features(rng, sfe),
                                      path=(f"s{i}",))
-            sub.memory_map = MemoryMap(addr_width=saw + (dw // gran).bit_length() - 1, data_width=gran)
+            sub.memory_map = new_map(addr_width=saw + (dw // gran).bit_length() - 1, data_width=gran)
             try:
                 c.add(sub, name=f"s{i}")
             except ValueError:
@@ -148,7 +148,7 @@ def build_component(kind, rng, P):
         lg = (wdw // cdw).bit_length() - 1
         caw = rng.randint(max(1, lg), 10)
         cb = csr.Interface(addr_width=caw, data_width=cdw, path=("csr",))
-        cb.memory_map = MemoryMap(addr_width=caw, data_width=cdw)
+        cb.memory_map = new_map(addr_width=caw, data_width=cdw)
         P.update(cdw=cdw, wdw=wdw, caw=caw)
         c = WishboneCSRBridge(cb, data_width=wdw)
         return c, [(c.wb_bus, wishbone.Signature(addr_width=max(0, caw - lg), data_width=wdw, granularity=cdw), "target")]
@@ -376,7 +376,7 @@ def use_signature(cls, p, sg, rng):
         intf = sg.create(path=("used",))
         how = rng.choice(["sub", "sub", "init", "both"])
         if how in ("sub", "both") and aw + (dw // g).bit_length() - 1 >= 1:
-            intf.memory_map = MemoryMap(addr_width=aw + (dw // g).bit_length() - 1, data_width=g)
+            intf.memory_map = new_map(addr_width=aw + (dw // g).bit_length() - 1, data_width=g)
             dfe = (feats & {"err", "rty", "stall"}) | frozenset(f for f in FEATS if rng.random() < 0.3)
             dec = wishbone.Decoder(addr_width=aw + 2, data_width=dw, granularity=g, features=dfe)
             dec.add(intf, name="used")
@@ -393,7 +393,7 @@ def use_signature(cls, p, sg, rng):
         if aw > 64:
             return 0
         intf = sg.create(path=("used",))
-        intf.memory_map = MemoryMap(addr_width=aw, data_width=dw)
+        intf.memory_map = new_map(addr_width=aw, data_width=dw)
         dec = csr.Decoder(addr_width=aw + 1, data_width=dw)
         dec.add(intf, name="used")
         Fragment.get(dec, None)
